@@ -1912,7 +1912,7 @@ fn table_numsets(tier: &str) -> Vec<(bool, i64, Vec<i64>, String)> {
 pub fn run(args: &Args) -> i32 {
   std::panic::set_hook(Box::new(|_| {}));
   let mut out = CaseOut::new(args, header_term(), "check run obs_eqb ok", "case", "obs");
-  out.per_shard = 150;
+  out.per_shard = 90;
   let mut idx = 0usize;
   let want = |i: usize| args.only.map_or(true, |o| o == i);
 
